@@ -47,6 +47,21 @@ def gen_scenario(rng, sid, big=False):
     L += ["m quiesce", "m shutdown", "m sleep 20000", "m shutdown_wait", "m destroy", "m reset"]
     return "\n".join(L) + "\n", {"n": n, "flood": flood, "skip": skip, "actors": actors}
 
+def pvt_flood_scenario(rng, sid, nmsg):
+    """many senders flood the shared virtual thread: every worker races for the same queue"""
+    n = rng.choice([2, 4, 8, 16])
+    L = ["m pool %d %d" % (n, 4096 if rng.random() < 0.5 else 0), "m start 0", "m waitrun"]
+    base = sid * 1000 + 1
+    for k in (1, 2, 3):
+        for j in range(nmsg // 3):
+            L.append("e%d send %d %d %d" % (k, n, rng.choice([0, 0, 0, 4]), base)); base += 1
+    w = rng.randrange(n)
+    for j in range(20):
+        L.append("w%d send %d %d %d" % (w, n, rng.choice([0, 1, 4]), base)); base += 1
+    L += ["m spawn e1", "m spawn e2", "m spawn e3", "m spawn w%d" % w, "m join e1", "m join e2", "m join e3", "m join w%d" % w,
+          "m quiesce", "m shutdown", "m sleep 20000", "m shutdown_wait", "m destroy", "m reset"]
+    return "\n".join(L) + "\n", {"n": n, "flood": "pvt"}
+
 def segments(evs):
     """cut the concatenated trace into pool lives; the C05 segment of a life ends at call.shutdown"""
     out = []; cur = []; live = True
@@ -84,7 +99,11 @@ def run(ctx):
         texts = []; metas = []
         for _ in range(per_proc):
             sid += 1
-            t, m = gen_scenario(rng, sid, big=not ctx.quick or sid % 6 == 0); texts.append(t); metas.append(m)
+            if sid % 8 == 3:
+                t, m = pvt_flood_scenario(rng, sid, 240 if ctx.quick else 900)
+            else:
+                t, m = gen_scenario(rng, sid, big=not ctx.quick or sid % 6 == 0)
+            texts.append(t); metas.append(m)
         rc, out, evs = tp.run_scenario(exe, "".join(texts), d, ctx.seed + sid, "c05_%d" % sid, timeout=240)
         hang = [e for e in evs if e["e"] in ("Hang", "BadOp", "Crash")]
         if rc != 0 or hang:
